@@ -12,4 +12,5 @@ pub mod exception {
 pub mod types {
 //@include frag/types.tpl
 //@include-if client frag/types_client_options.tpl
+//@include-if display frag/display_types.tpl
 }
